@@ -250,7 +250,8 @@ pub fn strategy() -> BoxedStrategy<Case> {
         (1, ("none", "gzip, br")),
         (1, ("none", " gzip")),
     ]);
-    let size = pickw(vec![(12u32, (1u16, 0u32)), (2, (1, 3000)), (1, (40, 0)), (1, (200, 20000)), (1, (0, 0))]);
+    // the last two classes hand the re-encoder more than 64 KiB of poorly compressible text in one call
+    let size = pickw(vec![(24u32, (1u16, 0u32)), (4, (1, 3000)), (2, (40, 0)), (2, (200, 20000)), (2, (0, 0)), (1, (1, 70_000)), (1, (2, 100_000))]);
     (c15::strategy(), enc, pick(vec!["Content-Encoding", "content-encoding", "CONTENT-ENCODING"]), 0u8..12, 10u8..25, schedule_strategy(), size, any::<u64>())
         .prop_map(|(c, (encoding, header_value), header_name, level, window, schedule, (repeat, noise), noise_seed)| {
             let mut nodes = c.doc.clone();
@@ -285,7 +286,7 @@ pub fn strategy() -> BoxedStrategy<Case> {
 pub fn run(ctx: &Ctx) -> Report {
     let mut rep = Report::new(
         "C14",
-        "case = generated document (0 B .. ~170 KiB: single, repeated 40x/200x, with up to 20000 incompressible characters) x filters that find their target x encoding in {gzip, deflate(zlib), br} x producer settings (flate2 level 0..9, brotli quality 0..11, window 10..24) x header spellings \
+        "case = generated document (0 B .. ~170 KiB: single, repeated 40x/200x, with up to 100000 incompressible characters, so that single calls of the re-encoder exceed its staging buffer) x filters that find their target x encoding in {gzip, deflate(zlib), br} x producer settings (flate2 level 0..9, brotli quality 0..11, window 10..24) x header spellings \
          x schedule over the COMPRESSED stream (whole, byte-wise, strides 1/2/3/7/10/4096, cuts inside the first 12 bytes, generated k-partitions) ; also unsupported encodings (identity, zstd, compress, 'gzip, br', ' gzip'); \
          oracle = an independent decoder instance accepts the output as ONE complete stream with nothing left over and dec(out) == the same filters applied to the plain body in one chunk; unsupported encoding => no chain is created and out == in; \
          non-trivial = the filters changed the document and a cut falls inside the first 10 or the last 8 bytes of the compressed stream; distinct by case hash",
